@@ -7,7 +7,7 @@ THEOREMS = {
         "Dawgs.C03.Props.wellScoped_sound", "Dawgs.C03.Props.wellScoped_no_error", "Dawgs.C03.Props.wellScoped_no_unbound",
         "Dawgs.C03.Props.applyShape_match", "Dawgs.C03.Props.cte_columns_match",
         "Dawgs.C03.Props.params_closed", "Dawgs.C03.Props.missing_param_rejected", "Dawgs.C03.Props.c03_partial",
-        "Dawgs.C03.Props.c03_partial_S2", "Dawgs.C03.Props.tr_wellScoped", "Dawgs.C03.Props.c03_partial_S3", "Dawgs.C03.Props.c03_partial_S4", "Dawgs.C03.Props.c03_partial_S5",
+        "Dawgs.C03.Props.c03_partial_S2", "Dawgs.C03.Props.tr_wellScoped", "Dawgs.C03.Props.c03_partial_S3", "Dawgs.C03.Props.c03_partial_S4", "Dawgs.C03.Props.c03_partial_S5", "Dawgs.C03.Props.c03_partial_S6",
     ],
 }
 
@@ -223,7 +223,7 @@ SPEC = {
     "regen": do_regen,
     "lean_modules": ["Dawgs.Props.C03"],
     "theorems_by_module": THEOREMS,
-    "gate_modules": ["Dawgs.Model.Sql", "Dawgs.Model.C01", "Dawgs.Model.C01S2", "Dawgs.Model.C01Chain", "Dawgs.Model.C01Count", "Dawgs.Model.C03", "Dawgs.Model.C03Bind", "Dawgs.Model.SqlSchema", "Dawgs.Proofs.C03", "Dawgs.Proofs.C03Frag", "Dawgs.Props.C03"],
+    "gate_modules": ["Dawgs.Model.Sql", "Dawgs.Model.C01", "Dawgs.Model.C01S2", "Dawgs.Model.C01Chain", "Dawgs.Model.C01Count", "Dawgs.Model.C01Limit", "Dawgs.Model.C03", "Dawgs.Model.C03Bind", "Dawgs.Model.SqlSchema", "Dawgs.Proofs.C03", "Dawgs.Proofs.C03Frag", "Dawgs.Props.C03"],
     "suites": [{"name": "c03", "model_suite": "c03", "model_input": model_input, "impl_view": impl_view, "model_view": model_view,
                 "judge": judge, "keep_prefix": 1, "thorough_seeds": 1}],
     "nontrivial": nontrivial,
@@ -270,6 +270,7 @@ MANIFEST = {
             "shows id / properties / kind column); c03_partial_S3 : forall flipOf flipCh prune, C03_for (C01.tr3F flipOf flipCh prune) adds stage S2c, chains of two or three hops (frames s0, s1[, s2] "
             "with the carried columns and the `!=` guards, final projection over the last frame: ChainB.tr_wellScopedCh); c03_partial_S4 : forall flipOf flipCh fast prune, C03_for (C01.tr4F flipOf flipCh fast prune) adds stage S1c, the two "
             "count statements (fast path / node frame, with or without alias: CountB.tr_wellScopedCount); c03_partial_S5 adds stage S2n, count(x) over a hop frame "
-            "(CountHopB.tr_wellScopedCountHop): the statement passes the binder (wellScoped = true) under the schema with the empty parameter list. C03_full (the same for a total translator) is a visible, undischarged Prop.",
+            "(CountHopB.tr_wellScopedCountHop); c03_partial_S6 : forall flipOf flipCh flipN fast prune push, C03_for (C01.tr6F ...) adds stage S2L, the hop statement with a LIMIT literal on the statement and — limit pushdown — "
+            "on the frame s0 (Hop.tr_wellScoped2L: a LIMIT literal binds in every scope): the statement passes the binder (wellScoped = true) under the schema with the empty parameter list. C03_full (the same for a total translator) is a visible, undischarged Prop.",
     "note": "Not a proof about the Go translator: per-output validation. PostgreSQL's scoping rules are a trusted Lean transcription of the documentation (no server in the sandbox).",
 }
